@@ -167,6 +167,19 @@ func VerifC17_IterError() {
 	} else {
 		vReach("c17.iterok")
 	}
+	// the iterator's error was transient: reading on at the running offset
+	// delivers the rest, so that every entry is delivered exactly once
+	got := append([]byte(nil), buf[:n]...)
+	off := int64(n)
+	for k := 0; k < 4; k++ {
+		m, err2 := rd.Read(vBG, buf, off)
+		got = append(got, buf[:m]...)
+		off += int64(m)
+		if m == 0 && err2 == nil {
+			break
+		}
+	}
+	vAssertEqBytes(got, ref, "C17: successive reads at the running offset deliver every entry exactly once, also across an iterator error")
 }
 
 // ---- client layer: CFileSys OpenDir over a session that clips reads to
